@@ -178,7 +178,10 @@ partial def storeLoop (h : IO.FS.Stream) (s : State) (now : Nat) (i : Nat) : IO 
         | _, _ => now
       let op' := op.setObjVal! "now" (.num now)
       let (s', m) := storeStep s op' obs
-      IO.println (Json.mkObj [("i", .num i), ("model", m), ("post", dumpJ s')]).compress
+      -- {"quiet":true}: a step of a long set-up history; its post-state is not asked for
+      let quiet := match j.getObjVal? "quiet" with | .ok (.bool b) => b | _ => false
+      if quiet then IO.println (Json.mkObj [("i", .num i), ("model", m)]).compress
+      else IO.println (Json.mkObj [("i", .num i), ("model", m), ("post", dumpJ s')]).compress
       let s'' := match j.getObjVal? "dump" with
         | .ok d => stateOfDump d s'
         | _ => s'
